@@ -202,6 +202,10 @@ func (h *host) getCPUPlans(cpuRequest float64) []types.CPUMap {
 
 	if full == 0 {
 		diff := h.maxFragmentCores - len(h.fragmentCores)
+		if diff < 0 {
+			// more fragment cores already exist than max share allows: convert no further core
+			diff = 0
+		}
 		h.fragmentCores = append(h.fragmentCores, h.fullCores[:diff]...)
 		h.fullCores = h.fullCores[diff:]
 		return h.getFragmentCPUPlans(h.fragmentCores, fragment)
